@@ -475,19 +475,18 @@ impl Debugger {
             debug!(target: "debugger", "alloc temporary memory area");
             let alloc_ptr = CallHelper::mmap(ccx)?;
 
-            debug!(target: "debugger", "jump into mmap'ed region");
-            CallHelper::jump(ccx, alloc_ptr)?;
+            debug!(target: "debugger", "jump into mmap'ed region and call a given function");
+            let call_result = CallHelper::jump(ccx, alloc_ptr)
+                .and_then(|_| CallHelper::call_fn(ccx, alloc_ptr, fn_addr.as_u64(), args));
 
-            debug!(target: "debugger", "call a given function");
-            CallHelper::call_fn(ccx, alloc_ptr, fn_addr.as_u64(), args)?;
-
+            // the temporary area is released on the error paths too
             debug!(target: "debugger", "going to original rip");
-            ccx.regs.clone().persist(ccx.pid)?;
+            let dealloc_result = ccx.regs.clone().persist(ccx.pid).and_then(|_| {
+                debug!(target: "debugger", "dealloc temporary memory area");
+                CallHelper::munmap(ccx, alloc_ptr)
+            });
 
-            debug!(target: "debugger", "dealloc temporary memory area");
-            CallHelper::munmap(ccx, alloc_ptr)?;
-
-            Ok(())
+            call_result.and(dealloc_result)
         })
     }
 
